@@ -2,9 +2,11 @@ CONSTANTS
   Versions <- MCVersions
   Gen <- MCGen
   HelperPath = "codable"
+  Fails <- MCFails
+  EagerWrite = FALSE
   HelperBug = TRUE
   MaxRuns = 4
 SPECIFICATION Spec
 INVARIANT Fresh 
-PROPERTY Idempotent
+PROPERTIES Idempotent FailedRunTouchesNothing
 CHECK_DEADLOCK FALSE
